@@ -942,7 +942,9 @@ fn drive_escapes(sink: &mut Sink, _rng: &mut Rng, n: usize) {
 
 // The vocabulary of real package URLs: a change that special-cases one well-known key, value, version shape or
 // naming convention of one ecosystem is invisible to generators that draw from small abstract alphabets.
-const V_TYPES: &[&str] = &["generic", "maven", "npm", "golang", "pypi", "nuget", "cargo", "gem", "deb", "docker", "github", "oci", "rpm", "conan", "hex", "swift"];
+const V_TYPES: &[&str] = &["generic", "maven", "npm", "golang", "pypi", "nuget", "cargo", "gem", "deb", "docker", "github", "oci", "rpm", "conan", "hex", "swift",
+                           // colloquial names of the seven ecosystems: none of them is a type the typed PURL knows
+                           "rubygems", "go", "pip", "crates.io", "crate", "mvn", "node", "nodejs", "python", "dotnet"];
 const V_NS: &[&str] = &["", "org.apache.commons", "@angular", "github.com/go-redis/redis", "library", "debian", "Some.Group", "gopkg.in", "k8s.io/api"];
 const V_NAMES: &[&str] = &["io", "cli", "v8", "v2", "v10", "redis", "Django_.-pkg", "Newtonsoft.Json", "yaml.v3", "commons-io", "curl", "jar", "type",
                            "serde_json", "requests[security]", "BurntSushi", "!burnt!sushi"];
